@@ -609,3 +609,6 @@ UNITS += [set_defaults_unit("C04"), get_default_unit("C04"), default_config_file
 # `--key+=v` (append) and `--key.item=v` (one item) are argv items that build on the value accumulated so far without writing into it
 from contracts.adapt_arms import arms_units as _arms_units  # noqa: E402
 UNITS += [u for u in _arms_units("C04") if u.label in ("List:append-and-sub-options", "Dict:item-option")]
+
+from contracts.share import carried as _carried  # noqa: E402
+UNITS += _carried("C04")
